@@ -484,6 +484,23 @@ class Weaver:
                     ed.replace(s0, c0, "if !(", "D8")
                     ed.replace(c1, s1, ") {", "D8")
                     ed.insert(lp["body_close"] - 1, "}", "D8")
+        # D8b: any other statement-form `continue;` in a `for` body (nested in blocks / match arms): a per-iteration flag.
+        # `continue;` becomes `kvx_skip = true;` and, in every enclosing block up to the loop body, the statements after the one
+        # holding it are wrapped in `if !kvx_skip { .. }` — the same control flow without the keyword
+        for lp in it.get("loops", []):
+            gs = lp.get("guard_continues") or []
+            fc = lp.get("flag_continues") or []
+            if lp.get("kind") == "for" and fc and len(fc) == lp.get("continues") and len(gs) != lp.get("continues"):
+                ed.insert(lp["body_open"] + 1, " let mut kvx_skip: bool = false; ", "D8b")
+                seen = set()
+                for c in fc:
+                    ed.replace(c["kw"][0], c["kw"][1], "kvx_skip = true", "D8b")
+                    for r0, r1 in c["rests"]:
+                        if (r0, r1) in seen:
+                            continue
+                        seen.add((r0, r1))
+                        ed.insert(r0, "if !kvx_skip { ", "D8b")
+                        ed.insert(r1, " }", "D8b")
         # R2 + W3: closures
         self.weave_closures(ed, src, fid, spec, it.get("closures", []), None)
         text, fired = ed.apply()
